@@ -1,6 +1,8 @@
 """Shared generators and tag construction for the tag properties
 (C01, C02, C03, C08, C16).  A *tag description* is a JSON-able dict; see
 vlib/ref_tlv.py (t1t/t2t layouts) and the strategies below (t3t, t3e, t4t)."""
+import contextlib
+import io
 import struct
 
 from hypothesis import strategies as st
@@ -10,6 +12,7 @@ import nfc.tag
 import nfc.tag.tt3
 
 from vlib import isodep_card, ref_tlv, simtags, tagdev
+from vlib.engine import Violation, unexpected
 
 # ------------------------------------------------------------------ messages
 
@@ -317,3 +320,328 @@ def classify(desc):
     if k == "t1t":
         return "t1t/" + ("static" if desc["size"] == 14 else "dynamic")
     return k
+
+
+# ------------------------------------------------------------------ histories
+# Several operations on ONE tag object (C01 / C03 `history` legs).  An
+# operation is a JSON-able dict:
+#   {"op": "read"}                      tag.ndef (octets when present)
+#   {"op": "changed"}                   tag.ndef.has_changed
+#   {"op": "write", "len": spec, "seed": n, "again": bool}
+#                                       tag.ndef.octets = message; with
+#                                       "again" the octets of the last
+#                                       attempted assignment (when there is
+#                                       one and it fits) instead of len/seed
+#   {"op": "format", "version": v, "wipe": w}   tag.format(...)
+# each with an optional "fault": [k, kind, burst, phase]: starting with the
+# k-th exchange of this operation ``burst`` exchanges (0 = all until the
+# operation ends) fail with ``kind`` before ("cmd") or after ("rsp") the tag
+# executed the command.  The fault is gone when the operation is over.  k is
+# taken modulo the number of exchanges the same operation needs in a
+# fault-free rehearsal of the history (see rehearse), so the fault always
+# lands inside the operation (exactly, up to the first fault of a history).
+HIST_KINDS = ("timeout", "transmission", "protocol")
+
+
+def hist_fault(p_none=2):
+    pos = st.one_of(st.integers(0, 8), st.integers(0, 40),
+                    st.integers(0, 400))
+    f = st.tuples(pos, st.sampled_from(HIST_KINDS),
+                  st.sampled_from([0, 0, 0, 3, 1, 2]),
+                  st.sampled_from(["cmd", "rsp"]))
+    # (weights through sampled_from: one_of drops repeated strategies)
+    return st.tuples(st.sampled_from([False] * p_none + [True]), f).map(
+        lambda t: list(t[1]) if t[0] else None)
+
+
+def hist_len(allow_over):
+    return st.one_of(len_spec(allow_over),
+                     st.tuples(st.just("abs"), st.integers(0, 60)),
+                     st.tuples(st.just("abs"), st.integers(0, 60)))
+
+
+def hist_ops(allow_over=True, min_size=2, max_size=7):
+    """strategy: list of operations for one tag object.  Message seeds come
+    from a small set and "again" repeats the last attempted assignment, so
+    a later assignment regularly carries octets an earlier one carried."""
+    write = st.fixed_dictionaries({
+        "op": st.just("write"), "len": hist_len(allow_over),
+        "seed": st.integers(0, 3),
+        "again": st.booleans(),
+        "fault": hist_fault(1)})
+    read = st.fixed_dictionaries({"op": st.just("read"),
+                                  "fault": hist_fault(5)})
+    changed = st.fixed_dictionaries({"op": st.just("changed"),
+                                     "fault": hist_fault(5)})
+    fmt = st.fixed_dictionaries({
+        "op": st.just("format"),
+        "version": st.sampled_from([None, None, 0x10, 0x11, 0x12, 0x20]),
+        "wipe": st.one_of(st.none(), st.integers(0, 255)),
+        "fault": hist_fault(5)})
+    by_name = {"write": write, "read": read, "changed": changed,
+               "format": fmt}
+    op = st.sampled_from(["write"] * 5 + ["read", "changed", "format",
+                                          "format"]).flatmap(by_name.get)
+    return st.lists(op, min_size=min_size, max_size=max_size)
+
+
+def t1t_hist():
+    """Type 1 layouts for histories: as t1t_desc, but a tag that identifies
+    itself as Topaz-512 (HR 12 4C) has the 512 bytes of one, so that what
+    format() declares exists physically; NDEF TLV anywhere the layout
+    strategy puts it (NULL / control TLVs in front)."""
+    def fix(d):
+        if d["hr1"] == 0x4C and d["size"] != 14:
+            d = dict(d, size=63)
+        return d
+    return st.one_of(
+        t1t_desc().map(fix),
+        t1t_desc().map(lambda d: dict(d, size=63, hr1=0x4C)),
+        t1t_desc().map(lambda d: dict(d, size=14, hr1=0x48)))
+
+
+def hist_desc(t2t=4, t1t=3, t3t=1, t3e=1, t4t=2):
+    """tag descriptions of all types; the arguments are relative weights"""
+    by_kind = {
+        "t2t": t2t_desc(), "t1t": t1t_hist(),
+        "t3t": t3t_desc("t3t").map(
+            lambda d: dict(d, nmaxb=min(d["nmaxb"], 300))),
+        "t3e": t3t_desc("t3e").map(
+            lambda d: dict(d, nmaxb=min(d["nmaxb"], 300))),
+        "t4t": t4t_desc().map(lambda d: dict(d, fsize=min(d["fsize"], 2000)))}
+    return st.sampled_from(["t2t"] * t2t + ["t1t"] * t1t + ["t3t"] * t3t +
+                           ["t3e"] * t3e + ["t4t"] * t4t
+                           ).flatmap(by_kind.get)
+
+
+class HistDevice(tagdev.TagDevice):
+    """TagDevice with a per-operation fault plan (see above).  The second
+    packet of the Type 2 SECTOR SELECT is never faulted: it is acknowledged
+    by silence, so the reader cannot tell a lost command from the
+    acknowledgement (same exemption as C16)."""
+
+    def __init__(self, tag, **kw):
+        tagdev.TagDevice.__init__(self, tag, **kw)
+        self.plan = None
+        self._prev = None
+
+    def arm(self, fault):
+        self.plan = None
+        if fault is not None:
+            self.plan = {"k": fault[0], "kind": fault[1], "burst": fault[2],
+                         "phase": fault[3], "seen": 0, "hits": 0}
+
+    def disarm(self):
+        plan, self.plan = self.plan, None
+        self.script = {}
+        return plan
+
+    def send_cmd_recv_rsp(self, target, data, timeout):
+        cmd = None if data is None else bytes(data)
+        p = self.plan
+        if p is not None:
+            ss2 = (self._prev == b"\xC2\xFF" and cmd is not None
+                   and len(cmd) == 4)
+            j = p["seen"]
+            p["seen"] += 1
+            if not ss2 and j >= p["k"] and (p["burst"] == 0
+                                            or p["hits"] < p["burst"]):
+                p["hits"] += 1
+                self.script = {self.exchanges + 1: (p["kind"], p["phase"])}
+            else:
+                self.script = {}
+        self._prev = cmd
+        return tagdev.TagDevice.send_cmd_recv_rsp(self, target, data, timeout)
+
+
+def activate_hist(b):
+    """like activate(), with a HistDevice as the driver"""
+    b.tag.reset()
+    clf = nfc.clf.ContactlessFrontend()
+    clf.device = HistDevice(b.tag, **b.dev_kw)
+    return tagdev.activate(b.tag, clf=clf)
+
+
+def clone(b):
+    """a second simulated tag with the same description and a copy of the
+    persistent memory of ``b`` as it is now.  Activating the clone is what a
+    fresh activation of the tag would see (volatile state such as the
+    selected sector or the ISO-DEP block number does not survive a field
+    reset) and leaves the session of the tag object under test alone."""
+    c = build(b.desc)
+    k = b.kind
+    if k in ("t1t", "t2t"):
+        c.tag.mem[:] = b.tag.mem
+    elif k == "t3t":
+        c.tag.blocks = [bytearray(x) for x in b.tag.blocks]
+    elif k == "t3e":
+        c.tag.data[:] = b.tag.data
+    else:
+        for fid in b.app.files:
+            c.app.files[fid][:] = b.app.files[fid]
+    return c
+
+
+def t3_attr(block0):
+    """independent parse of a Type 3 attribute block -> dict or None"""
+    a = bytes(block0)
+    if len(a) != 16 or sum(a[0:14]) != struct.unpack(">H", a[14:16])[0]:
+        return None
+    return {"ver": a[0], "nbr": a[1], "nbw": a[2],
+            "nmaxb": struct.unpack(">H", a[3:5])[0], "writef": a[9],
+            "rwflag": a[10],
+            "ln": struct.unpack(">I", b"\x00" + a[11:14])[0]}
+
+
+def current_area(b, image=None):
+    """what the independent model says about the tag memory as it is NOW:
+    (allowed, capacity) = set of addresses (tag.mem space) that belong to
+    the NDEF message area and the true message capacity; None when the
+    image holds no NDEF management data the model can read"""
+    image = bytes(b.tag.mem) if image is None else bytes(image)
+    k = b.kind
+    if k in ("t1t", "t2t"):
+        lay = ref_tlv.layout(image, k)
+        if lay is None:
+            return None
+        return set(lay["avail"]), ref_tlv.true_capacity(lay), lay
+    if k in ("t3t", "t3e"):
+        a = t3_attr(image[0:16])
+        if a is None or a["ver"] >> 4 != 1:
+            return None
+        nblocks = min(a["nmaxb"], len(image) // 16 - 1)
+        return set(range(0, (nblocks + 1) * 16)), nblocks * 16, a
+    nl = 4 if b.desc["ver"] >> 4 == 3 else 2
+    return set(range(0, b.desc["fsize"])), b.desc["fsize"] - nl, None
+
+
+def session_undefined(b, out):
+    """Type 4: after an operation that met an injected fault the state of
+    the ISO-DEP session is what the known findings C12-no-resync-after-error
+    and C12-wtx-fault-not-recovered describe (block numbers are not
+    resynchronised after an APDU was given up, the next APDU may get a stale
+    response).  The operation itself is still judged, the history ends."""
+    return b.kind == "t4t" and out["hits"] > 0
+
+
+def _quiet(fn, *a, **kw):
+    with contextlib.redirect_stdout(io.StringIO()):
+        return fn(*a, **kw)
+
+
+class _NoWatch(object):
+    def before(self, i, op, tag):
+        pass
+
+    def after(self, i, op, out):
+        self.counts.append(out.get("exchanges", 0))
+
+
+def rehearse(desc, old_spec, old_seed, ops):
+    """the history without faults on a tag of its own -> number of
+    exchanges of every operation (shorter than ops when the rehearsal ended
+    early)"""
+    b = build(desc, old_spec, old_seed)
+    w = _NoWatch()
+    w.counts = []
+    play(b, [dict(o, fault=None) for o in ops], w)
+    return w.counts
+
+
+def play(b, ops, watch, counts=()):
+    """run ``ops`` on one tag object of the built tag ``b``.
+
+    watch.before(i, op, tag) is called before, watch.after(i, op, out) after
+    every operation (return "stop" to end the history).  ``counts`` are the
+    exchange counts from rehearse() that fault positions are reduced by.
+    ``out``: op, status "returned" | "error" (nfc.tag.TagCommandError, the
+    only exception type an operation may raise) | "oversize" (ValueError for
+    data longer than the capacity) | "skipped" (tag.ndef is None or not
+    writeable), hits (number of injected faults), exchanges, and per
+    operation result / data / cap / changed / error."""
+    clf, tag = activate_hist(b)
+    if tag is None:
+        raise Violation("activation-failed", repr(b.desc))
+    dev = clf.device
+    last = None
+    for i, op in enumerate(ops):
+        name = op["op"]
+        out = {"op": name, "status": "returned", "hits": 0}
+        watch.before(i, op, tag)
+        fault = op.get("fault")
+        if fault is not None and i < len(counts) and counts[i]:
+            fault = [fault[0] % counts[i]] + list(fault[1:])
+        dev.arm(fault)
+        n0 = dev.exchanges
+        try:
+            try:
+                last = _hist_op(tag, op, out, last, dev)
+            finally:
+                plan = dev.disarm()
+                out["hits"] = plan["hits"] if plan else 0
+                out["exchanges"] = dev.exchanges - n0
+        except nfc.tag.TagCommandError as e:
+            out["status"], out["error"] = "error", e
+            if "data" in out:
+                last = out["data"]
+        except Violation:
+            raise
+        except Exception as e:
+            raise unexpected(e, name + "-raises", detail="operation %d of %r"
+                             % (i, [o["op"] for o in ops]))
+        if getattr(b.tag, "exc", None) is not None:
+            raise unexpected(b.tag.exc, "emulation-raises")
+        if watch.after(i, op, out) == "stop":
+            break
+    return tag
+
+
+def _hist_op(tag, op, out, last, dev):
+    name = op["op"]
+    if name == "read":
+        n = tag.ndef
+        out["result"] = None if n is None else bytes(n.octets)
+        if n is not None:
+            out["length"] = n.length
+        return last
+    if name == "changed":
+        n = tag.ndef
+        if n is None:
+            out["status"] = "skipped"
+            return last
+        out["changed"] = n.has_changed
+        n = tag.ndef
+        out["result"] = None if n is None else bytes(n.octets)
+        return last
+    if name == "write":
+        n = tag.ndef
+        if n is None or not n.is_writeable:
+            out["status"] = "skipped"
+            return last
+        cap = out["cap"] = n.capacity
+        if op.get("again") and last is not None and len(last) <= cap:
+            data = last
+            out["again"] = True
+        else:
+            ln = resolve_len(op["len"], cap)
+            if op["len"][0] != "cap":
+                ln = min(ln, cap)       # only ["cap", 1] asks for too much
+            data = message(ln, op["seed"])
+        if len(data) > cap:
+            n1 = dev.exchanges
+            try:
+                n.octets = data
+            except ValueError:
+                out["status"] = "oversize"
+                out["oversize_commands"] = dev.exchanges - n1
+                return last
+            out["status"] = "oversize-accepted"
+            return last
+        out["data"] = data
+        n.octets = data
+        return data
+    if name == "format":
+        out["result"] = _quiet(tag.format, version=op["version"],
+                               wipe=op["wipe"])
+        return last
+    raise ValueError(name)
